@@ -69,6 +69,17 @@ def scale_round(acc, scale, shift, mode):
     """requantise accumulators by (scale, shift); mode 0 TFL (double rounding), 1 truncate, 2 natural"""
     acc = np.asarray(acc, dtype=np.int64)
     if mode == 0:
+        if shift < 31:
+            # no second rounding stage below bit 31: one round-half-away shift of the exact 64-bit product, nothing saturates
+            out = []
+            for v in acc.reshape(-1):
+                p = int(v) * int(scale)
+                if shift == 0:
+                    out.append(p)
+                else:
+                    q = (abs(p) + (1 << (shift - 1))) >> shift
+                    out.append(q if p >= 0 else -q)
+            return np.array(out, dtype=np.int64).reshape(acc.shape)
         return K.mbqm_arr(acc, scale, 31 - shift)
     prod = acc.astype(object) * int(scale)
     if shift == 0:
@@ -76,6 +87,27 @@ def scale_round(acc, scale, shift, mode):
     if mode == 2:
         return np.array([(int(p) + (1 << (shift - 1))) >> shift for p in prod.reshape(-1)], dtype=np.int64).reshape(acc.shape)
     return np.array([(int(p) >> shift) if p >= 0 else -((-int(p)) >> shift) for p in prod.reshape(-1)], dtype=np.int64).reshape(acc.shape)
+
+
+def _wide_tfl(v, scale, shift):
+    """TFL rounding of v * scale / 2^shift for a wide v: round-half-away at bit 31, then round-half-away rounding shift"""
+    p = v * scale
+    nudge = (1 << 30) if p >= 0 else (1 - (1 << 30))
+    t = p + nudge
+    hi = t >> 31 if t >= 0 else -((-t) >> 31)
+    rs = shift - 31
+    if rs <= 0:
+        return hi << (-rs)
+    mask = (1 << rs) - 1
+    rem = hi & mask
+    thr = (mask >> 1) + (1 if hi < 0 else 0)
+    return (hi >> rs) + (1 if rem > thr else 0)
+
+
+def ozp(o):
+    """OFM zero point as applied: 32-bit results carry no zero point (the compiler reads every 32-bit IFM with zero point 0,
+    so a producer adding one would be inconsistent with every consumer) - assumption A-exec-3 in DESIGN.md"""
+    return 0 if o.bits == 32 else o.zp
 
 
 def ofm_range(o):
@@ -90,7 +122,11 @@ def apply_activation(mem, op, o, v, acc):
         lo, hi = op.r("ACTIVATION_MIN"), op.r("ACTIVATION_MAX")
         lo = lo if lo < 0x8000 else lo - 0x10000
     rlo, rhi = ofm_range(o)
-    v = np.clip(v, max(lo, rlo), min(hi, rhi))
+    if o.bits == 32:
+        # the 16-bit ACTIVATION_MIN/MAX registers cannot express a 32-bit range: 32-bit results are only saturated to int32
+        v = np.clip(v, rlo, rhi)
+    else:
+        v = np.clip(v, max(lo, rlo), min(hi, rhi))
     a = op.r("ACTIVATION") & 0x1F
     if a in (3, 4):
         raise Unsupported("hardware tanh/sigmoid activation")
@@ -202,7 +238,7 @@ def exec_kernel(mem, op, c, acc):
         for ch in range(nch):
             # 16-bit MACs accumulate in 40 bits and are scaled by the reduced multiplier without 32-bit saturation
             out[..., ch] = scale_round(accu[..., ch], int(scale[ch]), int(shift[ch]), 2 if f.bits == 16 else mode)
-        out += o.zp
+        out += ozp(o)
         out = apply_activation(mem, op, o, out, acc)
         store_fm(mem, o, out)
         return
@@ -232,7 +268,7 @@ def exec_kernel(mem, op, c, acc):
                     else:
                         cnt = int(valid[oy * k["sy"]: oy * k["sy"] + kh, ox * k["sx"]: ox * k["sx"] + kw].sum())
                         out[oy, ox] = np.where(a > 0, (a + cnt // 2) // cnt, -((-a + cnt // 2) // cnt))
-            out += o.zp
+            out += ozp(o)
         out = apply_activation(mem, op, o, out, acc)
         store_fm(mem, o, out)
         return
@@ -256,8 +292,36 @@ def exec_kernel(mem, op, c, acc):
         else:
             qa, qb = q["ifm"], q["ifm2"]
         dt = {(8, True): "int8", (8, False): "uint8", (16, True): "int16", (32, True): "int32"}[(o.bits, o.signed)]
-        if dt == "int32" or f.bits == 32:
-            raise Unsupported("32-bit elementwise")
+        if f.bits == 32:
+            # register-level evaluation: 32-bit operands are not rescaled (OPA/OPB scaling applies to 8/16-bit operands only);
+            # the result is requantised by the global OFM scale with the programmed rounding mode
+            if op.sub not in ("ADD", "SUB", "MUL"):
+                raise Unsupported("32-bit elementwise %s" % op.sub)
+            if (op.r("ACTIVATION") & 0x1F) != 0:
+                raise Unsupported("32-bit elementwise with activation function")
+            za = f.zp
+            zb = D.s16(op.r("IFM2_ZERO_POINT")) if not (bc & 0x80) else D.s16(op.r("IFM2_ZERO_POINT"))
+            if bc & 0x40:
+                za, zb = zb, za
+            a0, b0 = a - za, b - zb
+            r = a0 * b0 if op.sub == "MUL" else (a0 + b0 if op.sub == "ADD" else a0 - b0)
+            if np.abs(r).max(initial=0) >= (1 << 62):
+                raise Unsupported("32-bit product beyond 62 bits")
+            ofm_prec = op.r("OFM_PRECISION")
+            if ofm_prec & (1 << 8):
+                sc, sh = op.r("OFM_SCALE", (1, 0))
+                mode = (ofm_prec >> 14) & 3
+                if mode == 0 and (np.abs(r).max(initial=0) >= (1 << 31) or sc >= (1 << 31)):
+                    # double rounding on a wide product: SRDHM of the two factors, then the rounding shift
+                    r = np.array([_wide_tfl(int(v), int(sc), int(sh)) for v in r.reshape(-1)], dtype=np.int64).reshape(r.shape)
+                else:
+                    r = scale_round(r, sc, sh, mode)
+            r = r + ozp(o)
+            r = apply_activation(mem, op, o, r, acc)
+            store_fm(mem, o, r)
+            return
+        if dt == "int32":
+            raise Unsupported("8/16-bit elementwise with 32-bit result")
         lut = (op.r("ACTIVATION") & 0x1F) >= 16
         oq = q["ofm"]
         if op.sub in ("MIN", "MAX"):
